@@ -203,6 +203,9 @@ def build_extraction(name, timeout=900):
     return rc == 0, log + out
 
 
+CURRENT = None
+
+
 def hx(b):
     return bytes(b).hex()
 
@@ -214,6 +217,8 @@ class Check:
         ap.add_argument('--tier', default=os.environ.get('VERIF_TIER', 'quick'))
         ap.add_argument('--replay', default=None)
         a = ap.parse_args(argv)
+        global CURRENT
+        CURRENT = self
         self.pid = pid
         self.tier = a.tier if a.tier in ('quick', 'thorough') else 'quick'
         self.replay = a.replay
